@@ -38,7 +38,9 @@ RULE = (
     "add_rrset [release_reserved] add_opt(opt, pad, opt_size, tsig_size) write_header add_tsig/add_multi_tsig, key names that share a "
     "suffix with or equal a rendered name, exact and inexact caller-supplied sizes, fillers tuned so that the unpadded size is already "
     "block-aligned in about half of the padded scripts, tight and generous max_size; a reserve() that fails first, release_reserved() "
-    "twice, reserve(negative), an add that goes back to an earlier section, a relative name inside RDATA without origin), limit sweeps "
+    "twice, reserve(negative), an add that goes back to an earlier section, a relative name inside RDATA without origin, non-DNS exceptions "
+    "injected in the middle of an item — struct.error from a TTL that does not fit, ValueError/TypeError/OverflowError/BaseException from a stub "
+    "RDATA at any record of the set, ValueError from the owner — with a later rrset sharing the owner), limit sweeps "
     "with padding on, an RDATA longer than 65535 octets, received signed messages (from_wire with a keyring) that are optionally modified, "
     "padded with use_edns(pad=…) and rendered again with the TSIG re-emitted or signed anew, and through step-by-step Renderer traces "
     "that keep adding after a TooBig; a case is non-trivial if its key (kind + content) is new"
